@@ -324,6 +324,15 @@ def corruptions(schemas):
                 out.append((f"{sec}.{k}:type", sec, k, "set", "yes"))
     for sec in SECTION_SCHEMA:
         out.append((f"{sec}:missing-section", sec, None, "nosection", None))
+    # what only the file-structure schema sees: the top level itself
+    fs = schemas["file_structure"]
+    for k in fs.get("required", []):
+        if k not in SECTION_SCHEMA:
+            out.append((f"top.{k}:missing", k, None, "nosection", None))
+    for k, p in fs.get("properties", {}).items():
+        wrong = 7 if p.get("type") in ("string", "object", "array") else "abc"
+        if k not in SECTION_SCHEMA:
+            out.append((f"top.{k}:type", k, None, "settop", wrong))
     return out
 
 
@@ -345,6 +354,8 @@ def apply_corruption(d, c):
         d[sec][k] = val
     elif kind == "nosection":
         d.pop(sec, None)
+    elif kind == "settop":
+        d[sec] = val
     return d
 
 
